@@ -98,7 +98,7 @@ fn run_schedule(mk_main: &dyn Fn() -> Box<dyn Inst>, mk_noise: &dyn Fn() -> Box<
     let mut a: Option<Box<dyn Inst>> = None;
     let mut b: Option<Box<dyn Inst>> = None;
     let mut n: Option<Box<dyn Inst>> = None;
-    let mut turn = |who: u8, a: &mut Option<Box<dyn Inst>>, b: &mut Option<Box<dyn Inst>>, n: &mut Option<Box<dyn Inst>>| -> bool {
+    let turn = |who: u8, a: &mut Option<Box<dyn Inst>>, b: &mut Option<Box<dyn Inst>>, n: &mut Option<Box<dyn Inst>>| -> bool {
         match who % 3 {
             0 if with.0 => a.get_or_insert_with(|| mk_main()).step_one(),
             1 if with.1 => b.get_or_insert_with(|| mk_main()).step_one(),
